@@ -11,7 +11,8 @@ STORE_FAMILIES = {
     "C04": ["pos", "buf", "bufedge", "fleet", "slot", "cbelt"],
     "C05": ["pos", "buf", "prq", "bufedge", "fleet", "slot", "cbelt"], "C06": ["pos", "buf", "bufedge", "fleet", "slot", "cbelt"],
     "C07": ["pos", "buf", "bufedge", "fleet", "slot", "cbelt"],
-    "C10": ["pos", "buf"], "C11": ["bufedge", "buf", "fleet"], "C12": ["slot", "cbelt"], "C13": ["slot", "cbelt"], "C14": ["fleet"],
+    "C09": ["bufedge", "fleet"],                         # the probe of the edge a non-blocking node decides on (can_put exact)
+    "C10": ["pos", "buf", "bufedge", "fleet", "slot", "cbelt"], "C11": ["bufedge", "buf", "fleet"], "C12": ["slot", "cbelt"], "C13": ["slot", "cbelt"], "C14": ["fleet"],
     "C18": ["pos", "bufedge", "fleet", "slot", "cbelt"], "C19": ["pos", "buf"],
     "C20": ["prq", "fleet", "cbelt"],
 }
@@ -109,7 +110,7 @@ def mixed_stage(pid, tier, seed, cov, violations, known_hits=None):
     say(f"[check {pid}] family mixed: {r['n']} factories x " + ("1 run (per-edge flow judges)" if flow_only else "(2 runs here + 2 fresh interpreters)") + f", edge kinds {r['kinds']}, "
         f"{r['movements']} movements, {len(mine)} judge hits for {pid}")
     if mine:
-        mine.sort(key=lambda v: (v[3]["nm"], v[3]["horizon"]))
+        mine.sort(key=lambda v: (v[3].get("nm", v[3].get("count", 9)), v[3]["horizon"]))
         p_, rule, msg, cfg = mine[0]
         path = checklib.write_replay(pid, seed, "mixed-factory", None, None, dict(message=msg, rule=rule, mixed_config=cfg, factories_failing=len(mine)))
         violations.append((path, msg))
@@ -341,10 +342,10 @@ def check_property(pid, tier, seed):
                 h, ops = None, None
             else:
                 h, ops = checklib.read_ops_file(wpath)
-                fails = store_family.judge_fails(pid, h, ops, k.get("rule"))
+                fails = store_family.judge_fails(JUDGE_PROPS.get(pid, [pid]), h, ops, k.get("rule"))
                 if not fails and k.get("witness2"):
                     h2, ops2 = checklib.read_ops_file(os.path.join(VERIF, k["witness2"]))
-                    fails = store_family.judge_fails(pid, h2, ops2, k.get("rule"))
+                    fails = store_family.judge_fails(JUDGE_PROPS.get(pid, [pid]), h2, ops2, k.get("rule"))
         except Exception as e:
             say(f"[check {pid}] cannot replay witness of {k['id']}: {e}"); fails = None
         if k["status"] == "known":
